@@ -46,5 +46,10 @@ for P in sorted(os.listdir("/tmp/wt")):
                 "demo_features": c.get("features", ""),
             },
         }
+        old = os.path.join(dst, "meta.json")
+        if os.path.exists(old):
+            for k_, v_ in json.load(open(old)).items():
+                if k_ not in meta:
+                    meta[k_] = v_
         json.dump(meta, open(os.path.join(dst, "meta.json"), "w"), indent=1)
         print("kept %s-%s" % (P, k))
